@@ -23,6 +23,17 @@ import (
 type Call struct {
 	Target string `json:"target"`
 	Wrap   string `json:"wrap,omitempty"` // "", "if", "for"
+	Lay    int    `json:"lay,omitempty"`  // layout variant of the call text (same tokens, same position of the name)
+}
+
+func useText(c Call) string {
+	switch c.Lay % 3 {
+	case 1:
+		return fmt.Sprintf("use (%q)", c.Target)
+	case 2:
+		return fmt.Sprintf("use( %q ) # use(\"zz.p\")", c.Target)
+	}
+	return fmt.Sprintf("use(%q)", c.Target)
 }
 
 type Script struct {
@@ -93,16 +104,16 @@ func render(w *Workload) rendered {
 			case "if":
 				line("if true {")
 				r.sites[s.Name] = append(r.sites[s.Name], site{Ln: ln, Col: 3, Target: c.Target})
-				line(fmt.Sprintf("  use(%q)", c.Target))
+				line("  " + useText(c))
 				line("}")
 			case "for":
 				line("for i = 0; i < 1; i = i + 1 {")
 				r.sites[s.Name] = append(r.sites[s.Name], site{Ln: ln, Col: 3, Target: c.Target})
-				line(fmt.Sprintf("  use(%q)", c.Target))
+				line("  " + useText(c))
 				line("}")
 			default:
 				r.sites[s.Name] = append(r.sites[s.Name], site{Ln: ln, Col: 1, Target: c.Target})
-				line(fmt.Sprintf("use(%q)", c.Target))
+				line(useText(c))
 			}
 		}
 		if s.BadAt >= len(s.Calls) {
@@ -236,7 +247,7 @@ func gen(r *simrt.RNG) Workload {
 					t = names[(i+1)%n]
 				}
 			}
-			c := Call{Target: t}
+			c := Call{Target: t, Lay: r.Intn(3)}
 			switch r.Intn(5) {
 			case 0:
 				c.Wrap = "if"
